@@ -702,10 +702,21 @@ def check_searchers(scn, run, V):
     order = ['q%d' % i for i in range(len(scn['searchers']))]
     gen_calls = [e['name'] for e in tr.select('codegen', 'genCode', 'call')]
     puts = [e['name'] for e in tr.select('writer', 'putData', 'call')]
+    # the age a searcher is asked to compare with is the modification time of the very file the module
+    # came from (the one delivered last, i.e. the copy that was parsed)
+    delivered = {}
+    for e in tr.select('source', 'getData', 'ret'):
+        for m_ in file_modules(scn, e['name']):
+            delivered[m_] = e.get('mtime')
+    lent = set(e['name'] for e in tr.select('borrower', 'getData', 'ret'))
     # split the searcher events of a module into consultation rounds
     rounds = {}
     for e in tr.select('searcher', 'fileExists', 'call'):
         s = e['comp'].split(':')[1]
+        if e['name'] in delivered and delivered[e['name']] is not None and e.get('mtime') != delivered[e['name']] \
+                and not (e.get('mtime') == 50 and e['name'] in lent):     # 50: what the borrower doubles stamp
+            V('searcher_given_wrong_mtime', 'searcher %s asked about %s with source time %r, the file it came from '
+              'has %r' % (s, e['name'], e.get('mtime'), delivered[e['name']]))
         r = rounds.setdefault(e['name'], [[]])
         if r[-1] and order.index(s) <= order.index(r[-1][-1]):
             r.append([])
